@@ -4,6 +4,8 @@ import (
 	"encoding/json"
 	"fmt"
 	"os"
+	"reflect"
+	"unsafe"
 	"strings"
 	"sync"
 	"time"
@@ -17,7 +19,9 @@ import (
 	dbm "github.com/tendermint/tm-db"
 
 	japp "github.com/jackalLabs/canine-chain/v4/app"
+	paramskeeper "github.com/cosmos/cosmos-sdk/x/params/keeper"
 	minttypes "github.com/jackalLabs/canine-chain/v4/x/jklmint/types"
+	storagetypes "github.com/jackalLabs/canine-chain/v4/x/storage/types"
 )
 
 var bech32Once sync.Once
@@ -220,4 +224,56 @@ func Guard(f func()) (p string) {
 	}()
 	f()
 	return ""
+}
+
+// ---- module parameters as governance sees and changes them -------------------------------------------------
+// The configured values are what the parameter store holds; a passed ParameterChangeProposal writes one key at a
+// time through the subspace (validated by that key's validator) and never calls Keeper.SetParams.  Harnesses read
+// and change parameters this way, so that a keeper that memoises its parameters shows.
+
+func paramsKeeperOf(e *Env) paramskeeper.Keeper {
+	f := reflect.ValueOf(e.App).Elem().FieldByName("paramsKeeper")
+	return reflect.NewAt(f.Type(), unsafe.Pointer(f.UnsafeAddr())).Elem().Interface().(paramskeeper.Keeper)
+}
+
+// StorageParams reads the storage module's parameters from the parameter store (not through the keeper).
+func StorageParams(e *Env) storagetypes.Params {
+	var p storagetypes.Params
+	ss, _ := paramsKeeperOf(e).GetSubspace(storagetypes.ModuleName)
+	ss.GetParamSet(e.Ctx, &p)
+	return p
+}
+
+// GovSetStorageParams stores p the way governance would: every key whose value differs is updated through the
+// subspace.  Values a key's validator refuses are written through the keeper instead (harnesses also explore
+// values governance cannot reach); returns true when everything went the governance way.
+func GovSetStorageParams(e *Env, p storagetypes.Params) bool {
+	_ = e.App.StorageKeeper.GetParams(e.Ctx) // a running node has read its parameters before a proposal passes
+	ss, _ := paramsKeeperOf(e).GetSubspace(storagetypes.ModuleName)
+	cur := StorageParams(e)
+	cp, np := cur.ParamSetPairs(), p.ParamSetPairs()
+	ok := true
+	for i := range np {
+		a, _ := json.Marshal(reflect.ValueOf(cp[i].Value).Elem().Interface())
+		b, _ := json.Marshal(reflect.ValueOf(np[i].Value).Elem().Interface())
+		if string(a) == string(b) {
+			continue
+		}
+		// amino JSON: int64 values are strings
+		v := reflect.ValueOf(np[i].Value).Elem()
+		var js []byte
+		if v.Kind() == reflect.Int64 {
+			js = []byte(fmt.Sprintf("%q", fmt.Sprint(v.Int())))
+		} else {
+			js = b
+		}
+		var err error
+		if pn := Guard(func() { err = ss.Update(e.Ctx, np[i].Key, js) }); pn != "" || err != nil {
+			ok = false
+		}
+	}
+	if !ok {
+		e.App.StorageKeeper.SetParams(e.Ctx, p)
+	}
+	return ok
 }
